@@ -9,6 +9,7 @@ very function the theorems of `Props/C18.lean` are about — kept incrementally.
 
 Monitor side (implementation observations only; it never looks at the model's state): the
 conclusions of `codec_roundtrip`, `stale_expires`, `live_persists`/`self_persists`, `converges`,
+`callback_view_converges`,
 evaluated on each observed peer list whenever the *operations so far* satisfy the theorem's
 hypotheses (delays ≤ d, nothing lost, every running node refreshing at least every
 refresh + jitter, no forged message).
@@ -51,7 +52,7 @@ structure ONode where
   self : Node
   started : Bool := false
   running : Bool := false
-  st : St := {}
+  n : NSt := { st := {} }
 
 structure OSt where
   kind : String := ""
@@ -68,17 +69,26 @@ def OSt.node? (o : OSt) (tok : String) : Option ONode :=
 def OSt.setNode (o : OSt) (n : ONode) : OSt :=
   { o with nodes := o.nodes.map fun m => if m.idx == n.idx then n else m }
 
+def viewStr (n : ONode) : String :=
+  match n.n.view with
+  | none => s!"{n.idx}@-"
+  | some v => s!"{n.idx}@{encList v}"
+
 /-- every running node answers `GetPeers` (a `query` event) -/
 def OSt.observeAll (o : OSt) : OSt × String :=
   let nodes := o.nodes.map fun n =>
-    if n.running then { n with st := stepEv o.ttl n.st (.query o.now) } else n
-  let outs := (nodes.filter (·.running)).map fun n => s!"{n.idx}@{encList (getPeers n.self n.st)}"
-  ({ o with nodes := nodes }, if outs.isEmpty then "p=-" else "p=" ++ ";".intercalate outs)
+    if n.running then { n with n := stepEvN o.ttl n.self n.n (.query o.now) } else n
+  let run := nodes.filter (·.running)
+  let outs := run.map fun n => s!"{n.idx}@{encList (getPeers n.self n.n.st)}"
+  let cbs := run.map viewStr
+  ({ o with nodes := nodes },
+   if outs.isEmpty then "p=- cb=-" else "p=" ++ ";".intercalate outs ++ " cb=" ++ ";".intercalate cbs)
 
 def OSt.handle (o : OSt) (n : ONode) (msg : Bytes) : OSt × String :=
-  let st := stepEv o.ttl n.st (.recv o.now o.now msg)
-  let st := stepEv o.ttl st (.query o.now)
-  (o.setNode { n with st := st }, s!"p={n.idx}@{encList (getPeers n.self st)}")
+  let st := stepEvN o.ttl n.self n.n (.recv o.now o.now msg)
+  let st := stepEvN o.ttl n.self st (.query o.now)
+  let n' := { n with n := st }
+  (o.setNode n', s!"p={n.idx}@{encList (getPeers n.self st.st)} cb={viewStr n'}")
 
 def decodedStr (m : Bytes) : String :=
   match unmarshal m with
@@ -110,7 +120,7 @@ def oStep (o : OSt) (op : List String) (exts : List (List String)) : OSt × Opti
       match exts.find? (fun e => e.take 3 == ["node", i, "="]) with
       | some [_, _, _, addr, _] =>
         let self : Node := { n.self with addr := dec addr }
-        let n' : ONode := { n with self := self, started := true, running := true, st := start o.ttl self o.now }
+        let n' : ONode := { n with self := self, started := true, running := true, n := startN o.ttl self o.now }
         let (o', s) := (o.setNode n').observeAll
         (o', some s)
       | _ => (o, some "no-ext")
@@ -169,6 +179,7 @@ structure MNode where
   startT : Int := 0
   stopT : Int := 0
   pubs : List Int := []        -- publish instants, most recent first
+  handledT : Option Int := none   -- instant of the most recent message handed to this node's listen
 
 structure MMsg where
   label : String
@@ -240,24 +251,45 @@ def MSt.checkList (m : MSt) (r : MNode) (obs : List String) : List Fail :=
     else []
   staleFails ++ liveFails ++ convFails
 
-def parsePeers (o : String) : List (Nat × List String) :=
-  match o.splitOn "=" with
-  | ["p", v] =>
-    if v == "-" then [] else
-    (v.splitOn ";").filterMap fun item =>
-      match item.splitOn "@" with
-      | [i, l] => i.toNat?.map fun i => (i, l.splitOn ",")
-      | _ => none
-  | _ => []
+def parseLists (v : String) : List (Nat × List String) :=
+  if v == "-" then [] else
+  (v.splitOn ";").filterMap fun item =>
+    match item.splitOn "@" with
+    | [i, l] => i.toNat?.map fun i => (i, l.splitOn ",")
+    | _ => none
+
+/-- callback_view_converges: membership has not changed for more than d + ttl, everything arrived,
+everybody refreshes, and this node has handled a message since the bound: what its change
+callback saw last must be the live set -/
+def MSt.checkView (m : MSt) (r : MNode) (view : List String) : List Fail :=
+  if m.voided || !m.idsUnique then [] else
+  let t := m.now
+  let running := m.nodes.filter (·.running)
+  let bound := m.lastChange + m.d + m.ttl
+  let handledAfter := match r.handledT with | some h => decide (bound < h) | none => false
+  if m.fairOK r && running.all (·.gapOK m.gap t) && handledAfter then
+    let want := (ksort (running.map (·.id))).filterMap fun id => (running.find? (·.id == id)).map fun k => enc k.addr
+    if want == view then [] else
+      [{ prop := "C18", sig := "C18:callback-view-stale",
+         what := s!"node {r.idx}: the change callback last saw {",".intercalate view} but at t={t} (> lastChange+d+ttl, a message handled since) the live set is {",".intercalate want}" : Fail }]
+  else []
 
 def MSt.checkObs (m : MSt) (obs : Option String) : List Fail :=
   match obs with
   | none => []
   | some o =>
-    (parsePeers o).flatMap fun (i, l) =>
+    let toks := o.splitOn " "
+    let ps := parseLists ((kv toks "p").getD "-")
+    let cbs := parseLists ((kv toks "cb").getD "-")
+    let pf := ps.flatMap fun (i, l) =>
       match m.nodes.find? (fun n => n.idx == i && n.running) with
       | some r => m.checkList r l
       | none => []
+    let cf := cbs.flatMap fun (i, l) =>
+      match m.nodes.find? (fun n => n.idx == i && n.running) with
+      | some r => m.checkView r l
+      | none => []
+    pf ++ cf
 
 def MSt.updNode (m : MSt) (i : Nat) (f : MNode → MNode) : MSt :=
   { m with nodes := m.nodes.map fun n => if n.idx == i then f n else n }
@@ -331,7 +363,8 @@ def mStep (m : MSt) (op : List String) (exts : List (List String)) (obs : Option
       if obs == some "noop" then (m, []) else
       let late := decide (m.now - x.sent > m.d)
       let m := { m with voided := m.voided || late,
-                        msgs := m.msgs.map fun y => if y.label == lab then { y with delivered := idx :: y.delivered } else y }
+                        msgs := m.msgs.map fun (y : MMsg) => if y.label == lab then { y with delivered := idx :: y.delivered } else y }
+      let m := m.updNode idx fun n => { n with handledT := some m.now }
       (m, m.checkObs obs)
     | _, _ => (m, [])
   | ["inject", _, bytes] =>
